@@ -149,11 +149,19 @@ pub struct E2Result {
 /// Runs the product search for depth 1, 2, … `max_depth` (each a complete BFS
 /// from the initial states) until `state_cap` generated states would be
 /// exceeded.  Records counts of the deepest run into `acc`.
-pub fn run<P: Product + Clone>(
+pub fn run<P: Product + Clone>(prop: &str, p: P, depths: &[u16], state_cap: usize, acc: &mut Acc) -> E2Result {
+    run_opts(prop, p, depths, state_cap, false, acc)
+}
+
+/// `dfs = true` uses stateright's depth-first checker: the same (state, depth)
+/// set is visited, with far less memory (no frontier of cloned states); the
+/// counter-example found first is then not necessarily a shortest one.
+pub fn run_opts<P: Product + Clone>(
     prop: &str,
     p: P,
     depths: &[u16],
     state_cap: usize,
+    dfs: bool,
     acc: &mut Acc,
 ) -> E2Result {
     let known_classes: Vec<String> = load_findings()
@@ -177,19 +185,36 @@ pub fn run<P: Product + Clone>(
             steps: std::sync::atomic::AtomicU64::new(0),
         };
         let t0 = std::time::Instant::now();
-        let checker = wrap
-            .checker()
-            .threads(threads)
-            .target_state_count(state_cap)
-            .spawn_bfs()
-            .join();
-        let generated_sr = checker.state_count();
-        let generated = checker.model().steps.load(std::sync::atomic::Ordering::Relaxed);
-        let unique = checker.unique_state_count() as u64;
-        let discovery = checker.discovery("oracle");
+        let builder = wrap.checker().threads(threads).target_state_count(state_cap);
+        let (generated_sr, unique, discovery, steps, known_hits) = if dfs {
+            let c = builder.spawn_dfs().join();
+            (
+                c.state_count(),
+                c.unique_state_count() as u64,
+                c.discovery("oracle"),
+                c.model().steps.load(std::sync::atomic::Ordering::Relaxed),
+                {
+                    let hits = c.model().known_hits.lock().unwrap().clone();
+                    hits
+                },
+            )
+        } else {
+            let c = builder.spawn_bfs().join();
+            (
+                c.state_count(),
+                c.unique_state_count() as u64,
+                c.discovery("oracle"),
+                c.model().steps.load(std::sync::atomic::Ordering::Relaxed),
+                {
+                    let hits = c.model().known_hits.lock().unwrap().clone();
+                    hits
+                },
+            )
+        };
+        let generated = steps;
         let capped = discovery.is_none() && generated_sr >= state_cap;
         res.per_depth.push(json!({
-            "model": p.name(), "depth": d, "unique_states": unique, "transitions": generated, "stateright_state_count": generated_sr,
+            "model": p.name(), "depth": d, "search": if dfs { "dfs" } else { "bfs" }, "unique_states": unique, "transitions": generated, "stateright_state_count": generated_sr,
             "complete": !capped && discovery.is_none(), "wall_s": t0.elapsed().as_secs_f64()
         }));
         eprintln!(
@@ -202,7 +227,7 @@ pub fn run<P: Product + Clone>(
             discovery.is_some(),
             t0.elapsed().as_secs_f64()
         );
-        for (class, (n, summary)) in checker.model().known_hits.lock().unwrap().iter() {
+        for (class, (n, summary)) in known_hits.iter() {
             for _ in 0..1 {
                 acc.violation(Violation::new(
                     class.clone(),
